@@ -38,7 +38,7 @@ REACH = {"quick": {"editing-calls": 3000, "deepcopy-cuts": 1000, "warn-once-seco
 
 WARNING = "Warning: A successor has modified the shared dicts"
 HANDON = ["filter", "filter_out", "sort", "unique", "head", "tail", "slice", "copy", "reverse", "sample", "semi_join", "anti_join", "drop_na",
-          "append", "extend", "add", "mul"]
+          "append", "extend", "add", "mul", "chain", "chain"]
 EDIT = ["modify", "modify_if", "rename", "select", "unselect", "fill_missing_keys", "inner_join", "left_join"]
 
 def generate(rng, tier):
@@ -89,6 +89,15 @@ def execute(case):
     for step in range(case["nsteps"]):
         node = rng.choice(nodes)
         r = rng.random()
+        if r < 0.06 and len(nodes) > 2:
+            # drop the monitor's own reference to a list: if the library keeps what it needs alive itself, nothing changes
+            import gc
+            victim = rng.choice(nodes)
+            victim.lst = None
+            nodes.remove(victim)
+            gc.collect()
+            trace.append("forget")
+            continue
         if r < 0.15:
             op = "use"
         elif r < 0.27:
@@ -122,6 +131,7 @@ def execute(case):
                 elif op == "tail": out = lst.tail(rng.randint(0, n + 1))
                 elif op == "slice": out = lst[rng.randint(0, 2):rng.choice([None, n, -1])]
                 elif op == "copy": out = lst.copy()
+                elif op == "chain": out = lst.filter(lambda x: True).sort(_tag_=1).head(n + 1) if all("_tag_" in x for x in _items(lst)) else lst.copy().reverse().reverse()
                 elif op == "reverse": out = lst.reverse()
                 elif op == "sample": out = lst.sample(rng.randint(0, n + 1))
                 elif op in ("semi_join", "anti_join"):
@@ -143,6 +153,9 @@ def execute(case):
                     else:
                         op = "use"; out = None; lst.pluck("_tag_")
             printed = buf.getvalue()
+            if op == "chain":
+                import gc
+                gc.collect()
         except Exception as e:
             res.violate(f"{op}:raised:{exc_name(e)}", f"history step {step} {op} raised {e!r}; trace {trace}")
             return res.dict()
